@@ -137,9 +137,7 @@ def lean_sources(prop):
     return sorted(files)
 
 
-def run_driver(lines, timeout=1200):
-    if not os.path.exists(DRIVER):
-        raise InfraError("kdriver not built")
+def _run_driver_one(lines, timeout):
     data = "\n".join(lines) + "\n"
     try:
         p = subprocess.run([DRIVER], input=data, capture_output=True, text=True, timeout=timeout)
@@ -153,6 +151,31 @@ def run_driver(lines, timeout=1200):
     if len(out) != len(lines):
         raise InfraError("kdriver returned %d lines for %d ops" % (len(out), len(lines)))
     return out
+
+
+def run_driver(lines, timeout=2400, workers=8):
+    """runs the model on the operation lines; long runs are split over several driver processes - the definition lines
+    (deftable / defcode / defrank, which set the driver's state) are replayed at the head of every chunk"""
+    if not os.path.exists(DRIVER):
+        raise InfraError("kdriver not built")
+    if len(lines) < 1500:
+        return _run_driver_one(lines, timeout)
+    from concurrent.futures import ThreadPoolExecutor
+    n = len(lines)
+    size = (n + workers - 1) // workers
+    chunks = []
+    defs = []
+    for start in range(0, n, size):
+        chunk = lines[start:start + size]
+        chunks.append((list(defs), chunk))
+        defs += [l for l in chunk if l.startswith("def")]
+    def job(item):
+        pre, chunk = item
+        out = _run_driver_one(pre + chunk, timeout)
+        return out[len(pre):]
+    with ThreadPoolExecutor(max_workers=workers) as ex:
+        parts = list(ex.map(job, chunks))
+    return [o for part in parts for o in part]
 
 
 def sha(lines):
